@@ -172,8 +172,8 @@ def run_sim(case):
 _last = {}
 
 
-def impl_sim(case):
-    r = run_sim(case)
+def gens_of(r):
+    """per generation of an instrumented run: parents, children, get_segment calls and the decoded random tapes"""
     gens = []
     for g in r["gens"]:
         calls, complete = SD.split_calls(g)
@@ -182,6 +182,12 @@ def impl_sim(case):
         except AssertionError as e:
             tapes = None
         gens.append(dict(chroms=g["chroms"], cmEnd=[int(round(e[1])) for e in g["end_coords"]], endBp=[e[0] for e in g["end_coords"]], prev=g["prev"], prev_after=g["prev_after"], children=g["children"], calls=calls, calls_complete=complete, tapes=tapes))
+    return gens
+
+
+def impl_sim(case):
+    r = run_sim(case)
+    gens = gens_of(r)
     _last[C.jdump(case)] = gens
     return {"gens": [dict(children=g["children"], calls=[[c[:6] for c in cs] for cs in g["calls"]]) for g in gens], "all": [g["children"] for g in gens] if _chainable(gens) else None}
 
